@@ -440,83 +440,94 @@ func c17Limits(c *mon.Ctx) {
 				}
 			})
 		}
-		// JSON size
+		// JSON size: the limit is in bytes, whatever the width of the characters that make up the bulk
 		for _, size := range []int{65535, 65536, 65537, 70000} {
-			n++
-			if !c.Mine(n) {
-				continue
+			for _, width := range []int{1, 3} {
+				n++
+				if !c.Mine(n) {
+					continue
+				}
+				name := fmt.Sprintf("limit:%s:json:%d:width%d", ver, size, width)
+				c.Case(name, map[string]any{"version": ver, "json_bytes": size, "bulk_character_bytes": width}, func() {
+					c.Nontrivial(name)
+					expect := "ok"
+					if size > 65536 {
+						expect = "refused"
+					}
+					body := func(bytes int) string {
+						if width == 1 {
+							return strings.Repeat("p", bytes)
+						}
+						wide := bytes/width - 10
+						return strings.Repeat("€", wide) + strings.Repeat("p", bytes-wide*width)
+					}
+					mk := func(bytes int) protoSpec {
+						p := protoSpec{Type: "m.room.message", Sender: "@alice:a.example", RoomID: "!room:a.example", Depth: 3,
+							Content: []byte(`{"body":"` + body(bytes) + `"}`), Prev: []string{fakeEventID(c.RandShared("y"), t)}}
+						if t.Domainless {
+							p.RoomID = "!" + strings.Repeat("A", 43)
+						}
+						return p
+					}
+					probe, err := buildEvent(ver, mk(1000), id, baseTime)
+					if err != nil {
+						c.Failf("build:refuses-valid-proto", "%v", err)
+						return
+					}
+					pad := 1000 + size - len(probe.JSON())
+					ev, err := buildEvent(ver, mk(pad), id, baseTime)
+					got := "ok"
+					if err != nil {
+						got = "refused"
+						var ve gmsl.EventValidationError
+						if errors.As(err, &ve) && ve.Persistable {
+							got = "persistable"
+						}
+					} else if len(ev.JSON()) != size {
+						c.Note("size probe produced %d bytes instead of %d (v%s)", len(ev.JSON()), size, ver)
+						return
+					}
+					c.Count("limit_build_json_" + expect)
+					if got != expect {
+						c.Failf("limits:build:json:"+expect+"-reported-"+got, "Build(v%s) of an event of %d bytes (%d-byte characters): %s (%v), want %s", ver, size, width, got, err, expect)
+					}
+					// receipt: an event of exactly that many bytes whose content hash is right (so it is not replaced by
+					// its small redacted form): grow the body of an accepted event and recompute the hash
+					rv := ref.MustParse(probe.JSON())
+					rpad := 1000 + size - len(ref.Canon(rehashAndSign(rv, t)))
+					rv.Get("content").Set("body", ref.S(body(rpad)))
+					text := ref.Canon(rehashAndSign(rv, t))
+					if len(text) != size {
+						panic("harness: size arithmetic")
+					}
+					uev, err := impl.NewEventFromUntrustedJSON(text)
+					got = "ok"
+					if err != nil {
+						got = "refused"
+						var ve gmsl.EventValidationError
+						if errors.As(err, &ve) && ve.Persistable && uev != nil {
+							got = "persistable"
+						}
+					} else if uev.Redacted() {
+						panic("harness: rehashed event came back redacted")
+					}
+					want := "ok"
+					if len(text) > 65536 {
+						want = "refused"
+					}
+					c.Count("limit_receipt_json_" + want)
+					if got != want {
+						c.Failf("limits:receipt:json:"+want+"-reported-"+got, "NewEventFromUntrustedJSON(v%s) of an event of %d bytes (%d-byte characters): %s (%v), want %s", ver, len(text), width, got, err, want)
+					}
+					if expect == "ok" && ev != nil {
+						back, err := impl.NewEventFromUntrustedJSON(ev.JSON())
+						c.Count("limit_receipt_json_ok")
+						if err != nil || back == nil {
+							c.Failf("limits:receipt:json:ok-reported-refused", "an event of %d bytes built by the library is refused on receipt (v%s): %v", size, ver, err)
+						}
+					}
+				})
 			}
-			name := fmt.Sprintf("limit:%s:json:%d", ver, size)
-			c.Case(name, map[string]any{"version": ver, "json_bytes": size}, func() {
-				c.Nontrivial(name)
-				expect := "ok"
-				if size > 65536 {
-					expect = "refused"
-				}
-				mk := func(pad int) protoSpec {
-					p := protoSpec{Type: "m.room.message", Sender: "@alice:a.example", RoomID: "!room:a.example", Depth: 3,
-						Content: []byte(`{"body":"` + strings.Repeat("p", pad) + `"}`), Prev: []string{fakeEventID(c.RandShared("y"), t)}}
-					if t.Domainless {
-						p.RoomID = "!" + strings.Repeat("A", 43)
-					}
-					return p
-				}
-				probe, err := buildEvent(ver, mk(1000), id, baseTime)
-				if err != nil {
-					c.Failf("build:refuses-valid-proto", "%v", err)
-					return
-				}
-				pad := 1000 + size - len(probe.JSON())
-				ev, err := buildEvent(ver, mk(pad), id, baseTime)
-				got := "ok"
-				if err != nil {
-					got = "refused"
-					var ve gmsl.EventValidationError
-					if errors.As(err, &ve) && ve.Persistable {
-						got = "persistable"
-					}
-				} else if len(ev.JSON()) != size {
-					c.Note("size probe produced %d bytes instead of %d (v%s)", len(ev.JSON()), size, ver)
-					return
-				}
-				c.Count("limit_build_json_" + expect)
-				if got != expect {
-					c.Failf("limits:build:json:"+expect+"-reported-"+got, "Build(v%s) of an event of %d bytes: %s (%v), want %s", ver, size, got, err, expect)
-				}
-				// receipt: take an accepted event and grow its content, keeping canonical form
-				okEv, err := buildEvent(ver, mk(1000), id, baseTime)
-				if err != nil {
-					return
-				}
-				rv := ref.MustParse(okEv.JSON())
-				grow := size - len(ref.Canon(rv))
-				rv.Get("content").Set("body", ref.S(strings.Repeat("p", 1000+grow)))
-				text := ref.Canon(rv)
-				if len(text) != size {
-					panic("harness: size arithmetic")
-				}
-				uev, err := impl.NewEventFromUntrustedJSON(text)
-				got = "ok"
-				if err != nil {
-					got = "refused"
-					var ve gmsl.EventValidationError
-					if errors.As(err, &ve) && ve.Persistable && uev != nil {
-						got = "persistable"
-					}
-				}
-				// the tampered content fails the hash, so the parsed event is redacted and small; the
-				// size rule is about the received JSON, which the redacted copy no longer has. Only the
-				// untampered direction is asserted on receipt: an event that Build produced at the limit
-				// must be accepted back.
-				_ = got
-				if expect == "ok" && ev != nil {
-					back, err := impl.NewEventFromUntrustedJSON(ev.JSON())
-					c.Count("limit_receipt_json_ok")
-					if err != nil || back == nil {
-						c.Failf("limits:receipt:json:ok-reported-refused", "an event of %d bytes built by the library is refused on receipt (v%s): %v", size, ver, err)
-					}
-				}
-			})
 		}
 	}
 	c.Floor("limit_build_ok", 20)
